@@ -57,6 +57,26 @@ func wfCompact(c []byte) bool {
 
 func cp(b []byte) []byte { return append([]byte{}, b...) }
 
+// fresh checks that a result is the caller's own buffer: after the caller scribbles over
+// the whole capacity of a returned slice, the same call must still give the same answer
+// (a result that aliases package-level state or another result would change).
+func fresh(name string, f func() []byte) string {
+	r1, ok := catch(f)
+	if !ok {
+		return ""
+	}
+	want := cp(r1)
+	full := r1[:cap(r1)]
+	for i := range full {
+		full[i] ^= 0xA5
+	}
+	r2, ok2 := catch(f)
+	if !ok2 || !bytes.Equal(r2, want) {
+		return fmt.Sprintf("%s: result is not a fresh buffer: after the caller overwrote the returned slice the same call gives %x, before %x", name, r2, want)
+	}
+	return ""
+}
+
 func run(c Sx) Result {
 	l := AsList(c)
 	switch AsInt(l[0]) {
@@ -141,6 +161,16 @@ func run(c Sx) Result {
 			kb, ok := catch(func() []byte { return trie.VerifHexToKeybytes(cp(hx)) })
 			if !ok || !bytes.Equal(kb, b) {
 				fails = append(fails, "hexToKeybytes(keybytesToHex(k)) != k")
+			}
+		}
+		for _, m := range []string{
+			fresh("hexToCompact", func() []byte { return trie.VerifHexToCompact(cp(b)) }),
+			fresh("compactToHex", func() []byte { return trie.VerifCompactToHex(cp(b)) }),
+			fresh("keybytesToHex", func() []byte { return trie.VerifKeybytesToHex(cp(b)) }),
+			fresh("hexToKeybytes", func() []byte { return trie.VerifHexToKeybytes(cp(b)) }),
+		} {
+			if m != "" {
+				fails = append(fails, m)
 			}
 		}
 		if len(fails) > 0 {
@@ -235,7 +265,7 @@ func gen(r *Rng, tier string, emit func(Sx)) {
 func main() {
 	Main(Family{
 		ID:   "C10",
-		Rule: "exhaustive well-formed nibble paths up to length 4 (quick) / 5 (thorough) over a 6-symbol alphabet, each with and without terminator; random well-formed paths to length 130, random well-formed compact keys to 66 bytes, arbitrary byte strings and stray-terminator strings (malformed stream), prefixLen pairs sharing a random prefix. Non-trivial: a well-formed path of >= 3 nibbles or compact key of >= 2 bytes whose round trip was evaluated, or a prefixLen pair with a proper common prefix; distinct = distinct case line.",
+		Rule: "exhaustive well-formed nibble paths up to length 4 (quick) / 5 (thorough) over a 6-symbol alphabet, each with and without terminator; random well-formed paths to length 130, random well-formed compact keys to 66 bytes, arbitrary byte strings and stray-terminator strings (malformed stream), prefixLen pairs sharing a random prefix. Besides the round-trip oracles every conversion is checked for freshness of its result (the caller overwrites the whole capacity of the returned slice; the same call must still return the same bytes). Non-trivial: a well-formed path of >= 3 nibbles or compact key of >= 2 bytes whose round trip was evaluated, or a prefixLen pair with a proper common prefix; distinct = distinct case line.",
 		Gen:  gen,
 		Run:  run,
 	})
